@@ -4,6 +4,8 @@ package sim
 // C07 M1 — the rollback after a failed canary. C15 — canary node selection.
 
 import (
+	"strings"
+	"k8s.io/apimachinery/pkg/util/intstr"
 	metav1 "k8s.io/apimachinery/pkg/apis/meta/v1"
 	"encoding/json"
 	"fmt"
@@ -185,6 +187,9 @@ func (m *monC05) TaskEnd(s *Sim, t *Task) {
 	}
 	act := own[v.EDS.Status.ActiveReplicaSet]
 	st, wrote := finalEDSStatus(v)
+	if t.Err != nil && t.Clean() && up != nil && strings.Contains(t.Err.Error(), "unable to select enough node") {
+		m.checkUnreached(s, t, v, up)
+	}
 	// ---- C07 M1 ----
 	if t.Successful() && up != nil && act != nil && up.Name != act.Name && ersCondTrue(&up.Status, edsv1.ConditionTypeCanaryFailed) {
 		s.Stats.NonVacuous["C07.rollback"]++
@@ -444,5 +449,79 @@ func (m *monC05) checkCanaryPreference(s *Sim, t *Task, v *SyncView, nodes []str
 				}
 			}
 		}
+	}
+}
+
+// checkUnreached: the reconcile gave up on the canary node selection ("unable to select enough
+// node") - legitimate only if fewer valid nodes exist than requested, the spread over
+// nodeAntiAffinityKeys taken into account.
+func (m *monC05) checkUnreached(s *Sim, t *Task, v *SyncView, up *edsv1.ExtendedDaemonSetReplicaSet) {
+	can := v.EDS.Spec.Strategy.Canary
+	if can.Replicas == nil || can.Replicas.Type != intstr.Int || !v.NodesRead {
+		return // percentages: the resolved number depends on what the controller counts as targeted
+	}
+	want := can.Replicas.IntValue()
+	var sel labels.Selector = labels.Everything()
+	if can.NodeSelector != nil {
+		x, err := metav1.LabelSelectorAsSelector(can.NodeSelector)
+		if err != nil {
+			return
+		}
+		sel = x
+	}
+	spec := &up.Spec.Template.Spec
+	prev := map[string]bool{}
+	if v.EDS.Status.Canary != nil {
+		for _, n := range v.EDS.Status.Canary.Nodes {
+			prev[n] = true
+		}
+	}
+	val := func(n *corev1.Node) string {
+		x := ""
+		for _, k := range can.NodeAntiAffinityKeys {
+			x += n.Labels[k] + "$"
+		}
+		return x
+	}
+	values := map[string]bool{}
+	kept := map[string]int{}
+	free := map[string]int{}
+	nKept := 0
+	for _, n := range v.NodeList {
+		if !sel.Matches(labels.Set(n.Labels)) {
+			continue
+		}
+		values[val(n)] = true
+		if !eligibleSpec(n, spec) {
+			continue
+		}
+		if prev[n.Name] {
+			kept[val(n)]++
+			nKept++
+		} else {
+			free[val(n)]++
+		}
+	}
+	feasible := nKept
+	if len(can.NodeAntiAffinityKeys) == 0 {
+		for _, c := range free {
+			feasible += c
+		}
+	} else if len(values) > 0 {
+		quota := (want + len(values) - 1) / len(values)
+		for _, k := range sortedKeys(free) {
+			room := quota - kept[k]
+			if room < 0 {
+				room = 0
+			}
+			if free[k] < room {
+				room = free[k]
+			}
+			feasible += room
+		}
+	}
+	s.Stats.NonVacuous["C15.gave-up"]++
+	if feasible >= want {
+		s.Violate("C15", "count", "unreached", "%s reports %q although %d valid nodes can be selected within the spread quota (replicas %d, %d kept)", t.Label(), t.Err.Error(), feasible, want, nKept)
 	}
 }
